@@ -58,7 +58,12 @@ void harness(void) {
 #endif
 	VF_CANARY("gost adder harness end");
 #else
+#ifdef VF_T_OWNCTX
+	VF_NONDET_OBJ(gost3411_2012_ctx_t, ctx_obj);
+	gost3411_2012_ctx_t *ctx = &ctx_obj;
+#else
 	VF_FRESH_PTR(gost3411_2012_ctx_t, ctx, sizeof(gost3411_2012_ctx_t));
+#endif
 	VF_NONDET_BYTES(blk, VF_T_NBLK * 64 + VF_ALIGN);
 #ifdef VF_T1
 	VF_T_FN(ctx, (const uint64_t *)(const void *)(blk.b + VF_ALIGN));
